@@ -11,7 +11,7 @@ DECIDING = ["M-SHUFFLE", "M-SEPARATION", "M-INTEGRAL", "M-REINIT", "M-CONCURRENT
 LEVEL = "exploration"
 RULE = ("seeded random reference continua (2-5 annotators, some possibly empty, labelled and unlabelled, integer / "
         "dyadic / generic times, negative times, default bounds or reset bounds) x ground-truth subsets (>= 2, holding at "
-        "least one unit) x both pivot types x 30 (quick) / 100 (thorough) draws each; in 30 % of the cases the same "
+        "least one unit) x both pivot types (given as the literal, as an equal string built at run time, or as a numpy string) x 30 (quick) / 100 (thorough) draws each; in 30 % of the cases the same "
         "cases 2-4 threads then draw from the same sampler concurrently (switch interval 1e-6); in 30 % the "
         "sampler object is then re-initialised on a second reference with much longer units and sampled again; for every sample the monitor "
         "infers, from the output alone, for each sampled annotator a source annotator and a pivot that explain all its "
